@@ -3,6 +3,7 @@ connection; observation of one route_message() call as an ordered event list; an
 Gallina rendering of configurations / observations for the `dispatch` correspondence."""
 import asyncio
 import copy
+import os
 import dataclasses
 import json
 
@@ -19,6 +20,10 @@ class Recorder:
 
     def log(self, *ev):
         self.seq.append(ev)
+
+
+class RecvAgain(BaseException):
+    pass
 
 
 class Conn:
@@ -76,6 +81,8 @@ class Conn:
         self.rec.log("recv", i)
         if i < len(self.frames):
             return self.frames[i]
+        if i > len(self.frames) + 2:
+            raise RecvAgain("recv() was called again and again after it had failed")   # no endless loop in the harness
         if getattr(self, "linger", 0):
             await asyncio.sleep(self.linger)      # the connection stays open for a while before it breaks
         raise self.recv_exc
@@ -291,7 +298,9 @@ def observe_loop(version, routes, frames, exc_kind="closed", gate_held=False, as
 
     rec = Recorder()
     exc = {"closed": ScriptedClose("gone"), "oserror": OSError("reset"),
-           "cancelled": asyncio.CancelledError(), "eof": EOFError()}[exc_kind]
+           "cancelled": asyncio.CancelledError(), "eof": EOFError(), "timeout": asyncio.TimeoutError(),
+           "builtin-timeout": TimeoutError("keepalive ping timeout"), "runtime": RuntimeError("connection lost"),
+           "lookup": LookupError("no such stream"), "value": ValueError("bad frame")}[exc_kind]
     conn = Conn(rec, frames=frames, recv_exc=exc)
     conn.linger = linger
     cls = make_cp_class(version, routes)
@@ -422,3 +431,36 @@ HEADER = C.CASE_HEADER + "From OV.Model Require Import Names Schema Validate Fra
 def shard_source(cases, view="VFull"):
     return HEADER + "Definition cases : list dcase := %s.\nEval vm_compute in ddisagreements %s cases.\n" % (
         C.clist(["\n" + c for c in cases]), view)
+
+
+# ------------------------------------------------------------------------------- fresh interpreter
+_COLD = r"""
+import base64, pickle, sys
+sys.path[:0] = [sys.argv[1], sys.argv[2]]
+import importlib
+mod = importlib.import_module(sys.argv[3])
+calls = pickle.loads(base64.b64decode(sys.stdin.read()))
+out = []
+for (fn, args, kwargs) in calls:
+    try:
+        out.append(("ok", getattr(mod, fn)(*args, **kwargs)))
+    except BaseException as e:  # noqa: BLE001
+        out.append(("raised", type(e).__name__, str(e)[:300]))
+sys.stdout.write("\n@@OV@@" + base64.b64encode(pickle.dumps(out)).decode())
+"""
+
+
+def cold(calls, module="harness.impl_dispatch"):
+    """Run [(function name, args, kwargs), ...] of a harness module one after the other in ONE fresh interpreter (no
+    validator, schema or class cache filled by anything that ran before) and return [("ok", result) | ("raised", ..)].
+    What an endpoint does must not depend on what the process did earlier; in-process strata cannot see that."""
+    import base64
+    import pickle
+    import subprocess
+    from harness import common as C
+    pr = subprocess.run([C.PY, "-c", _COLD, C.REPO, C.VERIF, module], input=base64.b64encode(pickle.dumps(calls)).decode(),
+                        capture_output=True, text=True, timeout=300,
+                        env=dict(os.environ, PYTHONHASHSEED="0", PYTHONPATH=C.REPO, OCPP_REPO=C.REPO))
+    if "@@OV@@" not in pr.stdout:
+        return [("raised", "no-output", pr.stderr[-300:])] * len(calls)
+    return pickle.loads(base64.b64decode(pr.stdout.split("@@OV@@")[-1]))
